@@ -241,6 +241,11 @@ def run_task(source, contracts, loops, qualname, natives=None, timeout_ms=10000,
                 return res
             old_st = st.fork()
             ctx.base_state = old_st
+            if contract is not None and contract.types and set(contract.types.values()) <= {"series", "name", "int", "int|None", "nat", "bool"}:
+                from .replay import function_extractor
+
+                ctx.extract = function_extractor(contract, env)
+                ctx.extract_len = next((p + ".len" for p, ty in contract.types.items() if ty == "series"), "c.len")
             before = heap_snapshot(st)
             for st1, value in ex.inline(fv, list(args), dict(kwargs), st, fnode):
                 res.paths += 1
